@@ -48,6 +48,10 @@ EXPLANATION += (
     'C09).'
 )
 
+EXPLANATION += (
+    ' Round 5: settings are forwarded at every call (R-FWD/parameter-forwarded); np.maximum floors are recognised by the sign analysis.'
+)
+
 RULE_TEXT = (
     "one obligation per (file kind, reader, required dataset), per "
     "provenance relation; non-trivial when the reader requires at least "
@@ -199,6 +203,10 @@ def check(ctx):
     # able to hold the iteration count (shared with C02)
     from .C02 import check_counter_capacity
     check_counter_capacity(ctx)
+    # settings this property depends on are handed down every call
+    # chain, never left to a callee's default (sa/rules/forwarding.py)
+    from ..rules.forwarding import check_forwarding
+    check_forwarding(ctx, {'taxonomy_tree', 'precomputed_stats_path', 'normalization'})
 
 
 # ----------------------------------------------------------------------
